@@ -223,3 +223,22 @@ func lemmaCmpTrans(a, b, c Object) (ab, bc, ac int, eab, ebc, eac bool) {
 //@   ensures  noerr:: implies(result1 == nil, ghost("werr", ifaceval(to)) == old(ghost("werr", ifaceval(to))))
 //@   loop 3 invariant ghost("werr", ifaceval(to)) == old(ghost("werr", ifaceval(to)))
 //@   property C18 C14
+
+// ---- constants (C19): the checking setter refuses to rebind an all-upper-case name to a different value ----
+//@ func (*Environment).CreateOrSet
+//@   requires e != nil && val != nil
+//@   modifies *
+//@   nosafety
+//@   maypanic *
+//@   witness isconst = callresult after Constant#1
+//@   witness old = callresult0 after Get#1
+//@   witness found = callresult1 after Get#1
+//@   ensures  reject:: implies(isconst && found && !Equals(old, val), isType(result, Error))
+//@   property C19
+
+//@ func (*Environment).Set
+//@   requires e != nil && val != nil
+//@   modifies *
+//@   nosafety
+//@   maypanic *
+//@   property C19
